@@ -47,6 +47,15 @@ def step (line : String) : String :=
         | some d => hex d
         | none => "err"
       | none => "bad-op"
+  | ["shared", a, b, m] => match unhex a, unhex b, m.toInt? with
+      | some aa, some bb, some mm => "[" ++ String.intercalate "," ((sharedSubnets aa bb mm).map toString) ++ "]"
+      | _, _, _ => "bad-op"
+  | ["diff", a, b] => match unhex a, unhex b with
+      | some aa, some bb => "[" ++ String.intercalate "," ((diffSubnets aa bb).map fun (i, v) => s!"{i}:{v}") ++ "]"
+      | _, _ => "bad-op"
+  | ["active", v] => match unhex v with
+      | some b => toString (active b)
+      | none => "bad-op"
   | ["alltopics"] => String.intercalate "," (allTopics.map hex)
   | _ => "bad-op"
 
